@@ -105,7 +105,8 @@ def get_file_metadata(path, hashes):
         yield st.st_mtime
 
         f = open(fd, 'rb')
-    except Exception:
+    except BaseException:
+        # (including GeneratorExit when the generator is closed early)
         if opened:
             os.close(fd)
         raise
